@@ -454,6 +454,8 @@ class CallMixin:
       if lk.held <= 0:
         self.raise_('RuntimeError', VStr('cannot wait on un-acquired lock'))
       lk.events.append('wait')
+      for h in getattr(self, 'wait_hooks', ()):
+        h(self, lk)
       if lk.recheck and not self.spec_mode:
         # monitor rule (no lost wake-up): the condition waited for was tested after this lock was last
         # released - otherwise a notification sent in between is missed
